@@ -51,6 +51,12 @@ func snap(root string) map[string]snapEntry {
 			m[rel] = snapEntry{dir: true}
 			return nil
 		}
+		if info.Mode()&os.ModeSymlink != 0 {
+			// a link is what it says, not what it currently leads to
+			to, _ := os.Readlink(p)
+			m[rel] = snapEntry{sum: sha256.Sum256([]byte("symlink -> " + to)), size: int64(len(to))}
+			return nil
+		}
 		b, _ := os.ReadFile(p)
 		m[rel] = snapEntry{sum: sha256.Sum256(b), size: int64(len(b))}
 		return nil
@@ -71,6 +77,11 @@ type writeCase struct {
 	// Via: "" = txtar.Write, "cmd-file" / "cmd-stdin" = the txtar-x command on the formatted archive
 	// (the entries are then whatever Parse makes of the formatted text).
 	Via string `json:"via,omitempty"`
+	// PreL: pre-existing symbolic links inside target (name -> link text): to a file that does not exist outside the
+	// target, to an existing file outside it, or to nothing inside it. An entry of that name must not be written through
+	// the link. (Links to *directories* are not generated: the statement's quantifier speaks of pre-existing files, and
+	// the unchanged Write - whose containment test is lexical - does follow a pre-existing directory link; see DESIGN.)
+	PreL []wfile `json:"prel,omitempty"`
 }
 
 func escapes(name string) bool {
@@ -101,6 +112,16 @@ func checkWrite(c writeCase) *vt.Fail {
 		if safeRel(f.Name) {
 			os.MkdirAll(filepath.Dir(filepath.Join(target, f.Name)), 0o777)
 			os.WriteFile(filepath.Join(target, f.Name), f.Data, 0o666)
+		}
+	}
+	for _, l := range c.PreL {
+		to := string(l.Data)
+		if st, err := os.Stat(filepath.Join(filepath.Dir(filepath.Join(target, l.Name)), to)); err == nil && st.IsDir() {
+			continue // never a link to a directory
+		}
+		if safeRel(l.Name) && to != "" && !strings.ContainsAny(to, "\x00\n") && len(to) < 100 {
+			os.MkdirAll(filepath.Dir(filepath.Join(target, l.Name)), 0o777)
+			os.Symlink(to, filepath.Join(target, l.Name))
 		}
 	}
 	a := &txtar.Archive{}
@@ -239,6 +260,10 @@ func genWrite(t *rapid.T) writeCase {
 	for i, n := 0, rapid.IntRange(0, 2).Draw(t, "npred"); i < n; i++ {
 		c.PreD = append(c.PreD, rapid.SampledFrom([]string{"a", "b", "b/a", "c d"}).Draw(t, "predname"))
 	}
+	for i, n := 0, rapid.IntRange(0, 3).Draw(t, "nprel")-1; i < n; i++ {
+		c.PreL = append(c.PreL, wfile{Name: rapid.SampledFrom([]string{"a", "b", "target", "c d", "A", "a/b"}).Draw(t, "lname"),
+			Data: vt.B(rapid.SampledFrom([]string{"../escaped-victim", "../sibling.txt", "missing-inside", "../targetx", "../../c15-victim-above"}).Draw(t, "lto"))})
+	}
 	c.Via = rapid.SampledFrom([]string{"", "", "", "", "", "", "", "", "cmd-file", "cmd-stdin"}).Draw(t, "via")
 	for i, n := 0, rapid.IntRange(1, 5).Draw(t, "nfiles"); i < n; i++ {
 		c.Files = append(c.Files, wfile{Name: genName(t), Data: vt.B(rapid.SampledFrom([]string{"", "x\n", "data", "-- y --\n"}).Draw(t, "data") + fmt.Sprint(i))})
@@ -298,6 +323,9 @@ type rtCase struct {
 	Dirs  []string `json:"dirs"` // extra (possibly empty) directories
 	Flags []string `json:"flags"`
 	Stdin bool     `json:"stdin"`
+	// FdLimit > 0: txtar-x runs with that many file descriptors at most (ulimit -n): a tree of more files than that
+	// extracts all the same, one file after the other
+	FdLimit int `json:"fd_limit,omitempty"`
 }
 
 func bin(name string) string {
@@ -416,11 +444,17 @@ func checkRT(c rtCase) *vt.Fail {
 	}
 	os.WriteFile(arch, out, 0o666)
 	var x *exec.Cmd
-	if c.Stdin {
-		x = exec.Command(bin("txtar-x"), "-C", dst)
-		x.Stdin = bytes.NewReader(out)
+	xargs := []string{"-C", dst}
+	if !c.Stdin {
+		xargs = append(xargs, arch)
+	}
+	if c.FdLimit >= 24 && c.FdLimit <= 4096 {
+		x = exec.Command("sh", append([]string{"-c", fmt.Sprintf(`ulimit -n %d; exec "$0" "$@"`, c.FdLimit), bin("txtar-x")}, xargs...)...)
 	} else {
-		x = exec.Command(bin("txtar-x"), "-C", dst, arch)
+		x = exec.Command(bin("txtar-x"), xargs...)
+	}
+	if c.Stdin {
+		x.Stdin = bytes.NewReader(out)
 	}
 	if xo, err := x.CombinedOutput(); err != nil {
 		return vt.Failf("txtar-x-failed", "txtar-x failed on the archive written by txtar-c %v: %v\n%s\narchive:\n%s", c.Flags, err, xo, out)
@@ -486,6 +520,17 @@ func genRT(t *rapid.T) rtCase {
 			p = rapid.SampledFrom(dirNames).Draw(t, "dname") + "/" + p
 		}
 		f := tfile{Path: p, Data: vt.B(rapid.SampledFrom(bodies).Draw(t, "body"))}
+		if rapid.IntRange(0, 7).Draw(t, "big") == 3 {
+			// a file larger than the blocks a reader might sniff or copy in, with multi-byte characters lying across
+			// the block boundaries (0-3 ASCII bytes in front shift them byte by byte)
+			unit := rapid.SampledFrom([]string{"\u00e9", "\u20ac", "\u65e5\u672c", "x", "ab\n", "\U0001F600"}).Draw(t, "unit")
+			size := rapid.SampledFrom([]int{4094, 4096, 4099, 8192, 8195, 32768, 32771, 65536, 65539}).Draw(t, "bigsize")
+			b := []byte(strings.Repeat("a", rapid.IntRange(0, 3).Draw(t, "shift")))
+			for len(b) < size {
+				b = append(b, unit...)
+			}
+			f.Data = append(b, '\n')
+		}
 		if rapid.IntRange(0, 19).Draw(t, "symlink") == 0 {
 			f.Link = "f.txt"
 		}
@@ -493,6 +538,14 @@ func genRT(t *rapid.T) rtCase {
 	}
 	if rapid.IntRange(0, 3).Draw(t, "emptydir") == 0 {
 		c.Dirs = append(c.Dirs, rapid.SampledFrom(dirNames).Draw(t, "edir"))
+	}
+	if rapid.IntRange(0, 9).Draw(t, "many") == 6 {
+		// more files than the extracting process may have open at once
+		nm := rapid.IntRange(40, 90).Draw(t, "nmany")
+		for i := 0; i < nm; i++ {
+			c.Files = append(c.Files, tfile{Path: fmt.Sprintf("many/f%03d.txt", i), Data: vt.B(fmt.Sprintf("file %d\n", i))})
+		}
+		c.FdLimit = 32
 	}
 	c.Flags = rapid.SampledFrom([][]string{{}, {"-quote"}, {"-a"}, {"-a", "-quote"}, {}}).Draw(t, "flags")
 	c.Stdin = rapid.Bool().Draw(t, "stdin")
